@@ -107,6 +107,10 @@ where
             _ => UNKNOWN_CHAR,
         };
         ptr += 1;
+        // A malformed escape may stop inside a multi-byte character; skip the rest of it.
+        while ptr < bytes.len() && !input.is_char_boundary(ptr) {
+            ptr += 1;
+        }
         w.write_char(new_char)?;
         start = ptr;
     }
